@@ -17,6 +17,15 @@ var zzC04Alpha = [][]zzOp{
 		zzH("/{a}/x", "GET"), zzH("/{a}/y", "POST"), zzH("/{a}/x", "DELETE"), zzH("/k", "GET", "POST", "DELETE", "PUT", "PATCH", "CONNECT"),
 		zzRm("/{a}/x", "GET", "DELETE"), zzRm("/k", "CONNECT", "GET"), zzPCl("/{a}"), zzRm("/{a}/y"), zzH("/{a}/xz", "PUT"), zzRm("/nope", "GET"),
 	},
+	{ // 2 (after a setup with a split literal node and an unrelated route): a sibling goes away and the survivor gets a new
+		// method; prefixes that end exactly on a node boundary, inside a segment, and on the parent
+		zzRm("/p/ab"), zzH("/p/au", "POST"), zzPCl("/p/a"), zzPCl("/p/"), zzPCl("/p"), zzRm("/k", "PUT"), zzH("/p/ab", "POST"), zzRm("/p/au"), zzPCl("/k"),
+	},
+}
+
+// zzC04Setup: operations applied before the explored history (per alphabet).
+var zzC04Setup = [][]zzOp{nil, nil,
+	{zzH("/p/au", "GET"), zzH("/p/ab", "GET"), zzH("/k", "DELETE", "PUT")},
 }
 
 var zzAllMethods = []string{"GET", "POST", "DELETE", "PUT", "PATCH", "CONNECT", "TRACE"}
@@ -128,6 +137,9 @@ func ZZC04(n int) {
 	}
 	m := &zzModel{}
 	zzCheckAllow(r, m, trace) // brand-new router
+	for i, op := range zzC04Setup[n/1000] {
+		zzApply(r, m, op, 50+i)
+	}
 	for i := 0; i < depth; i++ {
 		op := alpha[zzv.Choice("op", len(alpha))]
 		if !zzApply(r, m, op, i+1) {
